@@ -542,8 +542,9 @@ def run_case(case):
                 F.append({"key": "C15:solvePDE_modifies_term_list", "msg": "solvePDE changed the list of terms it was given on %s (length %d -> %d)"
                           % (gid, len(ids), len(lst2)), "detail": {}})
                 break
-            pf.solvePDE(wb.sol, [pf.transientTerm(wb.sol, 0.25, 1.0), -pf.diffusionTerm(wb.D), pf.convectionUpwindTerm(wb.u),
-                                 pf.linearSourceTerm(wb.beta), pf.constantSourceTerm(wb.beta)])
+            # the reference rebuilds every term and lists them in the same order (the summation order decides the rounding)
+            fresh = [-pf.diffusionTerm(wb.D), pf.convectionUpwindTerm(wb.u), pf.linearSourceTerm(wb.beta), pf.constantSourceTerm(wb.beta)]
+            pf.solvePDE(wb.sol, ([pf.transientTerm(wb.sol, 0.25, 1.0)] + fresh) if k % 2 == 0 else (fresh[::-1] + [pf.transientTerm(wb.sol, 0.25, 1.0)]))
             res["evals"] += 2
             res["states"] += 1
             res["transitions"] += 2
